@@ -108,7 +108,7 @@ struct World {
   hvec<LeafRec*> leafrecs;
   hvec<TapRec*> taps;
   hvec<FnCall> calls;
-  struct ConnThrow { int node; TapRec* parent; uint64_t seq; };
+  struct ConnThrow { int node; TapRec* parent; uint64_t seq; long code; };
   hvec<ConnThrow> conn_throws;
   struct Kept { void* p; void (*del)(void*); };
   hvec<Kept> kept;
@@ -210,13 +210,24 @@ void maybe_throw_on_connect(int node) {
   if (n.parent >= 0)
     for (auto* p : g_world->taps)
       if (p->node == n.parent && (!parent || p->connect_seq > parent->connect_seq)) parent = p;
-  g_world->conn_throws.push_back(World::ConnThrow{node, parent, seq()});
+  g_world->conn_throws.push_back(World::ConnThrow{node, parent, seq(), -5000 - node});
   g_world->fault_injected = true;
   usim_probe("connect threw");
   throw injected_throw(-5000 - node);
 }
 
 // ---- taps
+void tap_aborted(TapRec* t, std::exception_ptr e) {
+  long code = -9999;
+  try { std::rethrow_exception(e); } catch (const injected_throw& it) { code = it.code; } catch (const TestError& te) { code = te.id; } catch (const std::bad_alloc&) { code = -8000; } catch (...) {}
+  usim::np_scope np;
+  t->aborted = true;
+  t->destroyed = true;
+  t->destroy_seq = seq();
+  // for the parent's model this is "connecting child t->node threw `code`"
+  g_world->conn_throws.push_back(World::ConnThrow{t->node, t->parent, seq(), code});
+}
+
 TapRec* tap_new(int node) {
   usim::np_scope np;
   TapRec* t = new TapRec();
@@ -663,7 +674,7 @@ struct Outcome { int ch; long payload; };
 int child_taps(World* w, int node, TapRec* parent, TapRec** out, int max) {
   int n = 0;
   for (auto* t : w->taps)
-    if (t->node == node && t->parent == parent && n < max) out[n++] = t;
+    if (t->node == node && t->parent == parent && !t->aborted && n < max) out[n++] = t;
   return n;
 }
 
@@ -690,6 +701,11 @@ bool conn_threw(World* w, TapRec* t, int child) {
   for (auto& c : w->conn_throws)
     if (c.node == child && c.parent == t) return true;
   return false;
+}
+long conn_code(World* w, TapRec* t, int child) {
+  for (auto& c : w->conn_throws)
+    if (c.node == child && c.parent == t) return c.code;
+  return -5000 - child;
 }
 
 bool strictly_before(TapRec* a, TapRec* b) {
@@ -746,7 +762,7 @@ void check_tap(World* w, TapRec* t, bool) {
       int on = n.kind == K_LET_VALUE ? CH_VALUE : n.kind == K_LET_ERROR ? CH_ERROR : CH_DONE;
       if (c->channel == on) {
         if (n.throws && n.kind != K_LET_DONE) { expect(CH_ERROR, thrown, "successor factory threw"); KIT_CHECK(n1 == 0, "c05.sequencing", "node %d: successor connected although the factory threw", t->node); break; }
-        if (conn_threw(w, t, n.child[1])) { expect(CH_ERROR, -5000 - n.child[1], "connecting the successor threw: set_error(current_exception)"); break; }
+        if (conn_threw(w, t, n.child[1])) { expect(CH_ERROR, conn_code(w, t, n.child[1]), "connecting the successor threw: set_error(current_exception)"); break; }
         TapRec* s = child_done(c1, n1);
         if (!s) { fail("completed although its successor has not"); break; }
         KIT_CHECK(s->start_seq > c->sig_enter, "c05.sequencing", "node %d: successor started before the predecessor completed", t->node);
@@ -761,7 +777,7 @@ void check_tap(World* w, TapRec* t, bool) {
       TapRec* s = child_done(c0, n0);
       TapRec* f = child_done(c1, n1);
       if (!s) { fail("completed although its source has not"); break; }
-      if (conn_threw(w, t, n.child[1])) { expect(CH_ERROR, -5000 - n.child[1], "connecting the completion sender threw: set_error"); break; }
+      if (conn_threw(w, t, n.child[1])) { expect(CH_ERROR, conn_code(w, t, n.child[1]), "connecting the completion sender threw: set_error"); break; }
       if (!f) { fail("completed although the completion sender has not run"); break; }
       KIT_CHECK(f->start_seq > s->sig_enter, "c05.sequencing", "finally: completion sender started before the source completed");
       if (f->channel == CH_VALUE) same_as(s, "source result after the completion sender's value");
@@ -775,7 +791,7 @@ void check_tap(World* w, TapRec* t, bool) {
         KIT_CHECK(n1 == 0 || !c1[0]->started, "c05.sequencing", "sequence: second step started although the first completed with %s", ch_name(a->channel));
         same_as(a, "first non-value signal wins");
       } else {
-        if (conn_threw(w, t, n.child[1])) { expect(CH_ERROR, -5000 - n.child[1], "connecting the next step threw: set_error"); break; }
+        if (conn_threw(w, t, n.child[1])) { expect(CH_ERROR, conn_code(w, t, n.child[1]), "connecting the next step threw: set_error"); break; }
         TapRec* b = child_done(c1, n1);
         if (!b) { fail("completed although its last step has not"); break; }
         KIT_CHECK(b->start_seq > a->sig_enter, "c05.sequencing", "sequence: second step started before the first completed");
@@ -834,12 +850,16 @@ void check_tap(World* w, TapRec* t, bool) {
         TapRec* trig = nullptr;
         if (i < 3) { if (ntrig_b < n1) trig = c1[ntrig_b++]; }
         else { if (ntrig_c < n2) trig = c2[ntrig_c++]; }
+        if (!trig) {
+          int tc = i < 3 ? n.child[1] : n.child[2];
+          if (conn_threw(w, t, tc)) { expect(CH_ERROR, conn_code(w, t, tc), "connecting the trigger threw (a nested connect): set_error"); decided = true; break; }
+        }
         if (!trig || !trig->completed) { fail("completed although the retry trigger has not"); decided = true; break; }
         KIT_CHECK(trig->start_seq > src->sig_enter, "c05.sequencing", "retry_when: trigger started before the source attempt failed");
         if (trig->channel != CH_VALUE) { same_as(trig, "trigger done/error ends the retry loop"); decided = true; break; }
         // retry: the next source attempt must exist unless its re-connect threw
         if (i + 1 >= n0) {
-          if (conn_threw(w, t, n.child[0])) expect(CH_ERROR, -5000 - n.child[0], "re-connecting the source threw: set_error");
+          if (conn_threw(w, t, n.child[0])) expect(CH_ERROR, conn_code(w, t, n.child[0]), "re-connecting the source threw: set_error");
           else fail("trigger asked for a retry but the source was not restarted");
           decided = true;
         } else {
